@@ -5,7 +5,7 @@
 From Coq Require Import ZArith List Lia Bool ZifyBool.
 From LZ4V Require Import Gen.Consts Spec.BlockSpec Model.Mem Model.Fast Model.FastApi Model.HcEmit Model.HcMid Model.HcMidApi.
 From LZ4V Require Import Proofs.BlockSpecProofs Proofs.FactorSpec Proofs.FastBasics Proofs.FastCap Proofs.FastApiSound.
-From LZ4V Require Import Proofs.HcMidSound Proofs.HcMidCap.
+From LZ4V Require Import Proofs.HcMidSound Proofs.HcMidCap Proofs.HcMidFill.
 Import ListNotations.
 Local Open Scope Z_scope.
 
@@ -101,6 +101,32 @@ Proof.
   - cbn [RCap] in HC. cbn. split; [left; reflexivity|]. split; [lia|]. split; [intros; congruence | lia].
 Qed.
 
+(* fillOutput: the block is strictly valid too *)
+Theorem hc_generic_mid_fill_strict c start src srcSize cap :
+  src_ok src -> 65536 <= start <= 1073741824 + 65536 -> tab_lt (hc_h4 c) start -> tab_lt (hc_h8 c) start ->
+  0 <= srcSize < 2147483648 -> 0 <= cap ->
+  let r := hc_generic_mid c start src srcSize cap FillOutput in
+  0 < hr_ret r -> strict_valid [] (hr_out r) = Some (load_list src 0 (Z.to_nat (hr_consumed r))).
+Proof.
+  intros Hsrc Hst T4 T8 [Hsz Hint] Hcap. unfold hc_generic_mid.
+  destruct (cap <? 1) eqn:E0; [cbn; lia|].
+  destruct (u32 srcSize >? LZ4_MAX_INPUT_SIZE) eqn:E1; [cbn; lia|].
+  assert (Hmax : srcSize <= LZ4_MAX_INPUT_SIZE) by (rewrite u32_id in E1 by (unfold M32; lia); lia).
+  cbv zeta.
+  set (vrd := fun p => get src (p - start)).
+  assert (Hb : forall a, 0 <= vrd a < 256) by (intros a; apply Hsrc).
+  assert (Hidx : 0 <= start /\ start <= start /\ start <= start /\ start + srcSize < M32)
+    by (unfold M32, LZ4_MAX_INPUT_SIZE in *; lia).
+  pose proof (mid_compress_sound vrd FillOutput start start start srcSize cap Hb Hidx Hsz (hc_h4 c) (hc_h8 c) T4 T8) as HS.
+  pose proof (mid_compress_fill_strict vrd start start start srcSize cap Hb Hidx Hsz (hc_h4 c) (hc_h8 c) T4 T8) as HF.
+  destruct (mid_compress vrd FillOutput start start start srcSize cap (hc_h4 c) (hc_h8 c)) as [h4 h8 hw | ret consumed out h4 h8 hw | ].
+  - cbn; lia.
+  - cbn [RSpec] in HS. cbn [RFill] in HF. destruct HS as (S1 & _).
+    cbn [hr_ret hr_out hr_consumed]. intros _.
+    unfold vrd in HF. rewrite (seg_nil _ start start) in HF by lia. rewrite seg_load in HF by lia. exact HF.
+  - cbn; lia.
+Qed.
+
 (* ---- the entry points ---- *)
 Definition mid_call_ok (src : mem) (srcSize cap : Z) (lim : outdir) (r : hres) : Prop :=
   hc_ok (hr_ctx r) /\
@@ -178,6 +204,20 @@ Proof.
     split; [exact A|]. apply B. destruct (mk_cap k <? compressBound (mk_size k)); discriminate.
 Qed.
 
+(* LZ4_compress_HC_destSize at levels 1-2: strict validity of the returned block *)
+Theorem compress_HC_destSize_mid_strict src srcSize target :
+  src_ok src -> 0 <= srcSize < 2147483648 -> 0 <= target ->
+  let r := compress_HC_destSize_mid src srcSize target in
+  0 < hr_ret r -> strict_valid [] (hr_out r) = Some (load_list src 0 (Z.to_nat (hr_consumed r))).
+Proof.
+  intros Hsrc Hsz Ht. unfold compress_HC_destSize_mid.
+  pose proof hc_ok_init as [Hd|(A1 & A2 & A3)]; [discriminate Hd|].
+  pose proof (hc_init_internal_ok hc_init A1 A2 A3) as HI.
+  destruct (hc_init_internal hc_init) as [c1 start]. destruct HI as (I1 & I2 & I3 & I4).
+  apply hc_generic_mid_fill_strict; assumption.
+Qed.
+
+Print Assumptions compress_HC_destSize_mid_strict.
 Print Assumptions compress_HC_fastReset_mid_sound.
 Print Assumptions compress_HC_destSize_mid_sound.
 Print Assumptions mid_history_sound.
